@@ -6,7 +6,7 @@ use serde_json::Value;
 
 use crate::dbgcheck::*;
 use crate::engine::*;
-use crate::lacebox::Stop;
+use crate::lacebox::{self, Stop};
 use crate::proggen::{self, Ending, ProgSpec};
 use crate::refasm::Layout;
 use crate::refdbg::Cmd;
@@ -56,9 +56,14 @@ pub fn judge_case(c: &Case) -> Obs {
     obs.key = hash_of(&(&p.text, &script));
     let ncmds = cmds.len() as u64 + 1;
     let fuel = 8 * (rr.steps + ncmds) + 64;
-    let s = run_lace(&p, &script, &[], fuel);
+    // the bound is on counters (hooks H3, H4, H6), not on the transcript: a third of the sessions
+    // run in the normal (non-minimal) output mode
+    let minimal = obs.key % 3 != 0;
+    obs.label(if minimal { "output-mode-minimal" } else { "output-mode-normal" });
+    let s = if minimal { run_lace(&p, &script, &[], fuel) } else { run_lace_mode(&p, &script, &[], fuel, false) };
     let Some(out) = outcome_of(&mut obs, "C16", &s, &shown) else { return obs };
-    let err = String::from_utf8_lossy(&out.stderr).to_string();
+    let err = String::from_utf8_lossy(&lacebox::strip_sgr(&out.stderr)).to_string();
+    let err = err.replace("Reached HALT", "Reached::Halt").replace("Out of bounds of user program memory", "OutOfBounds::ProgramCounter");
     let at_edge = err.contains("OutOfBounds::ProgramCounter") || err.contains("Reached::Halt");
     let resumes = cmds.iter().filter(|c| c.is_resuming()).count();
     obs.nontrivial = at_edge && resumes >= 1;
